@@ -224,12 +224,18 @@ type storageRunner struct {
 	secrets     []string
 	concWorkers int
 	lastBroker  []*protocol.StorageRequest
+	hold        chan struct{} // fault injection: serve() stops taking requests until released
 }
 
 // serve answers storage requests arriving on the application's storage channel (as the storage
 // coordinator would) by executing them synchronously on the current storage module.
 func (s *storageRunner) serve() {
 	for req := range s.app.StorageChannel {
+		if req == nil {
+			// fault injection (cqslow): storage is busy — it takes no request until the harness releases it
+			<-s.hold
+			continue
+		}
 		func() {
 			defer func() {
 				if r := recover(); r != nil && req.Reply != nil {
@@ -528,8 +534,9 @@ func (s *storageRunner) step(r *runner, line string) {
 		}
 		s.ev.AgeCache(time.Duration(atoi(f[2])) * time.Millisecond)
 		r.reply("ok")
-	case "cq":
+	case "cq", "cqslow":
 		// S cq <cluster> <group> <showall>: a status request through the persistent evaluator (cache)
+		// S cqslow …: the same while storage is slow to accept the evaluator's fetch (resolved as a plain cq)
 		now := stableNow()
 		// freeze: cancel the real time that passed since the last synchronisation point
 		t := time.Now()
@@ -537,20 +544,49 @@ func (s *storageRunner) step(r *runner, line string) {
 		s.evRef = t
 		before := atomic.LoadInt64(&s.served)
 		req := &protocol.EvaluatorRequest{Cluster: unhexName(f[2]), Group: unhexName(f[3]), ShowAll: f[4] == "1", Reply: make(chan *protocol.ConsumerGroupStatus, 1)}
+		slow := f[1] == "cqslow"
+		ticked := false
 		res := guard(func() string {
-			s.ev.GetConsumerStatus(req)
+			if slow {
+				// storage accepts the evaluator's fetch only after ~1.3 s (a busy storage subsystem): the answer must be
+				// the one storage then gives, however long it took to be accepted
+				if s.hold == nil {
+					s.hold = make(chan struct{})
+				}
+				wait := 1300 * time.Millisecond
+				if ns := t.Add(wait).Nanosecond(); ns > 880000000 || ns < 30000000 {
+					wait += 170 * time.Millisecond // end the wait away from a second boundary
+				}
+				// the wait is not cache time: un-age what is cached beforehand (nothing is in flight yet) and move the
+				// reference point
+				s.ev.AgeCache(-wait)
+				s.evRef = s.evRef.Add(wait)
+				s.app.StorageChannel <- nil
+				go s.ev.GetConsumerStatus(req)
+				time.Sleep(wait - time.Since(t))
+				now = time.Now().Unix()
+				before = atomic.LoadInt64(&s.served)
+				s.hold <- struct{}{}
+			} else {
+				s.ev.GetConsumerStatus(req)
+			}
 			st := <-req.Reply
+			ticked = time.Now().Unix() != now
 			if st.Status == protocol.StatusNotFound {
 				// a cached error is answered at once and refreshed in the background: let that refresh finish
 				deadline := time.Now().Add(time.Second)
 				for atomic.LoadInt64(&s.served) == before && time.Now().Before(deadline) {
 					time.Sleep(200 * time.Microsecond)
 				}
-				time.Sleep(2 * time.Millisecond)
+				if atomic.LoadInt64(&s.served) != before {
+					// a refresh did run: it read the clock
+					time.Sleep(2 * time.Millisecond)
+					ticked = time.Now().Unix() != now
+				}
 			}
 			return fmt.Sprintf("rc=%s rg=%s %s", hexName(st.Cluster), hexName(st.Group), renderGroupStatus(st))
 		})
-		if time.Now().Unix() != now {
+		if ticked {
 			res += " tick"
 		}
 		r.resolve("S cq %d %s %s %s", now, f[2], f[3], f[4])
